@@ -645,6 +645,10 @@ func mapAggregateNestedTargets(
 
 	if target.filter.HasValue() {
 		for topKey, topCond := range target.filter.Value().Conditions {
+			if topKey == request.FilterOpNot {
+				// an operator, not the name of a related object
+				continue
+			}
 			switch cond := topCond.(type) {
 			case map[string]any:
 				for _, innerCond := range cond {
